@@ -183,6 +183,8 @@ def nrt_scenario(ctx, j):
                 for i in range(2):
                     obsB.append((c.seconds, c.beats))
                     execd.append(main.elapsed_time())
+                    if i == 1 and j.get('tempo_change') and j['inner'] == 'tempo':
+                        c.tempo = T * 2          # beats and seconds stay continuous; later deltas run at the new tempo
                     yield dB[i]
                 obsB.append((c.seconds, c.beats))
                 execd.append(main.elapsed_time())
@@ -236,7 +238,7 @@ def nrt_scenario(ctx, j):
                   data('closed-form-inner'))
         if k < 2:
             accb = accb + R(dB[k])
-            accs = accs + R(dB[k]) / tempo
+            accs = accs + R(dB[k]) / (tempo * 2 if (k == 1 and j.get('tempo_change') and j['inner'] == 'tempo') else tempo)
     for k, (x, y) in enumerate(zip(execd, execd[1:])):
         ctx.prove(R(y) >= R(x), 'NRT: logical time decreases from one executed task to the next', data('monotone'))
     last = R(execd[0])
@@ -286,6 +288,8 @@ def _replay_nrt(j, g):
         for i in range(2):
             obsB.append((c.seconds, c.beats))
             execd.append(main.elapsed_time())
+            if i == 1 and j.get('tempo_change') and j['inner'] == 'tempo':
+                c.tempo = T * 2
             yield dB[i]
         obsB.append((c.seconds, c.beats))
         execd.append(main.elapsed_time())
@@ -331,7 +335,7 @@ def _replay_nrt(j, g):
             return f'NRT: inner routine resumption {k} at {sec}s / beat {beats}, expected {accs}s / beat {accb}'
         if k < 2:
             accb += dB[k]
-            accs += dB[k] / tempo
+            accs += dB[k] / (tempo * 2 if (k == 1 and j.get('tempo_change') and j['inner'] == 'tempo') else tempo)
     for x, y in zip(execd, execd[1:]):
         if y < x - 1e-9:
             return f'NRT: executed task times decrease: {execd}'
@@ -426,6 +430,7 @@ def main(tier, seed):
     nrt = [dict(mode='nrt', inner=i, tempo=T, offset=o, start=st) for i in ('tempo', 'app', 'sys')
            for T in ([2.0] if tier == 'quick' else [2.0, 0.5]) for o in ((0, 1) if i == 'tempo' else (0,))
            for st in ('play', 'sched')]
+    nrt += [dict(mode='nrt', inner='tempo', tempo=2.0, offset=o, start='play', tempo_change=1) for o in (0, 1)]
     rt += [dict(r, start='sched') for r in rt if r['child'] != 'none' and not r['other']]
     for r in run_jobs('vf.props.c05', 'job', rt, 'rt'):
         chk.add('rt', r)
